@@ -170,28 +170,46 @@ func (p *simpleExpressionPlanner) analyze() {
 }
 
 func (p *simpleExpressionPlanner) analyzeCond(exp *traceql_parser.AttrSelectorExp) *condition {
-	var res *condition
 	if exp == nil {
 		return nil
 	}
-	if exp.ComplexHead != nil {
-		res = p.analyzeCond(exp.ComplexHead)
-	} else if exp.Head != nil {
-		term := exp.Head.String()
-		if p.terms[term] != 0 {
-			res = &condition{simpleIdx: p.terms[term] - 1}
-		} else {
-			p.termIdx = append(p.termIdx, exp.Head)
-			p.terms[term] = len(p.termIdx)
-			res = &condition{simpleIdx: len(p.termIdx) - 1}
+	// The grammar is right-recursive (`operand op rest`): collect the whole chain of operands first and
+	// combine it with the TraceQL precedence afterwards: && binds tighter than ||.
+	var operands []*condition
+	var ops []string
+	for e := exp; e != nil; e = e.Tail {
+		var operand *condition
+		if e.ComplexHead != nil {
+			operand = p.analyzeCond(e.ComplexHead)
+		} else if e.Head != nil {
+			term := e.Head.String()
+			if p.terms[term] != 0 {
+				operand = &condition{simpleIdx: p.terms[term] - 1}
+			} else {
+				p.termIdx = append(p.termIdx, e.Head)
+				p.terms[term] = len(p.termIdx)
+				operand = &condition{simpleIdx: len(p.termIdx) - 1}
+			}
+		}
+		operands = append(operands, operand)
+		if e.Tail != nil {
+			ops = append(ops, e.AndOr)
 		}
 	}
-	if exp.Tail != nil {
-		res = &condition{
-			simpleIdx: -1,
-			op:        exp.AndOr,
-			complex:   []*condition{res, p.analyzeCond(exp.Tail)},
+	var alternatives []*condition
+	current := operands[0]
+	for i, op := range ops {
+		if op == "&&" {
+			current = &condition{simpleIdx: -1, op: "&&", complex: []*condition{current, operands[i+1]}}
+			continue
 		}
+		alternatives = append(alternatives, current)
+		current = operands[i+1]
+	}
+	alternatives = append(alternatives, current)
+	res := alternatives[0]
+	for _, alt := range alternatives[1:] {
+		res = &condition{simpleIdx: -1, op: "||", complex: []*condition{res, alt}}
 	}
 	return res
 }
